@@ -6,7 +6,9 @@ GInit == done = FALSE
 GNext == ~done /\ done' = TRUE
 U == [kinds |-> [k \in Kinds |-> Kind(k, 0)],
       fixed |-> [n \in {4, 6, 8} |-> [u |-> Kind("u32", n), b |-> Kind("bytes", n)]],
-      special |-> Special, extra |-> Extra, origin |-> Origin,
+      special |-> Special, extra |-> Extra, origin |-> Origin, suborigin |-> SubOrigin,
+      \* which records (held absolute / relative to the origin) a configuration may be applied to
+      applicable |-> [b \in {"abs", "org"} |-> {oc.id : oc \in {c \in OrgConfigs : Applicable(c, b)}}],
       styles |-> Styles, orgconfigs |-> OrgConfigs, genconfigs |-> GenConfigs, numsubst |-> NumSubst, numsubst_short |-> NumSubstShort, short_types |-> {"WKS"}]
 Emit == done => PrintT("BEH " \o ToJson(U))
 =============================================================================
